@@ -94,7 +94,8 @@ def _ok(res=None, num=0):
 
 
 _CHUNK = re.compile(r"0|[1-9][0-9]{0,8}")
-OP_TIMEOUT_S = 20            # an operation that does not return within this is the observation "noreturn"
+OP_TIMEOUT_S = 30            # an operation that does not return within this wall time ...
+OP_CPU_S = 2                 # ... or burns this much CPU (operations on <= 40 items take microseconds) is "noreturn"
 ITER_SLACK = 64              # an iteration that yields more than n + ITER_SLACK items is cut off ("garbled")
 WORKER_AS_LIMIT = 1024 << 20  # address space a forked replay worker may add (a mutant must not eat the machine)
 
@@ -230,14 +231,17 @@ class Runner:
         import signal
         after, note = [], ""
         old = signal.signal(signal.SIGALRM, _alarm)
+        oldp = signal.signal(signal.SIGPROF, _alarm)
         signal.setitimer(signal.ITIMER_REAL, OP_TIMEOUT_S)
+        signal.setitimer(signal.ITIMER_PROF, OP_CPU_S)
         try:
             try:
                 out = self.call(o)
             except (_NoReturn, MemoryError):
                 out = {"cls": "noreturn", "kind": "", "res": [], "num": 0}
                 self.dead = True
-                note = "operation did not return within %ds (or exhausted memory); trace ends here" % OP_TIMEOUT_S
+                note = "operation did not return within %ds / %ds CPU (or exhausted memory); trace ends here" % (
+                    OP_TIMEOUT_S, OP_CPU_S)
             if chk and not self.dead:
                 try:
                     r = self.full_read()
@@ -250,7 +254,9 @@ class Runner:
                     after = r
         finally:
             signal.setitimer(signal.ITIMER_REAL, 0)
+            signal.setitimer(signal.ITIMER_PROF, 0)
             signal.signal(signal.SIGALRM, old)
+            signal.signal(signal.SIGPROF, oldp)
         return {"o": o, "out": out, "chk": bool(chk), "after": after, "files": self.listing(), "note": note}
 
     def shutdown(self):
@@ -771,7 +777,8 @@ def main(argv_tier=None, replay_path=None):
         "CPython's slice.indices and range as transcribed in PySlice.tla (checked against the running interpreter each run)",
         "scratch directory on a local (RAM-backed when available) file system; no concurrent access; no crash between "
         "operations (C13 covers crashes)",
-        "an operation that does not return within %d s is recorded as outcome noreturn and rejected" % OP_TIMEOUT_S])
+        "an operation that does not return within %d s (%d s of CPU) is recorded as outcome noreturn and rejected"
+        % (OP_TIMEOUT_S, OP_CPU_S)])
     if n_viol > len(vio_out):
         print("%s: %d rejected traces in total (%s)" % (PROP, n_viol, ", ".join("%s x%d" % kv for kv in sorted(by_clause.items()))))
     return out
